@@ -567,10 +567,44 @@ func ruleT9(c *Ctx) []Ob {
 	} else {
 		s.bad("appendStruct", "-", "not found")
 	}
-	// (3) list header
+	// (3) list header: every 5-byte emission is [t.WT, count big-endian]; the count is 0 exactly where the slice's first word
+	// is nil and uint32(len) elsewhere (two returns, or one return with the count merged by a phi)
 	if fn := sp.Func("appendListHeader"); fn != nil {
 		ei := analyseEmits(fn)
-		n := 0
+		pparam := fn.Params[2]
+		firstWordNil := func(b *ssa.BasicBlock, wantNil bool) bool { // dominated by (first word of *p) ==/!= nil
+			for _, cd := range domConds(b) {
+				bo, ok := cd.V.(*ssa.BinOp)
+				if !ok || !(isNilConst(bo.X) || isNilConst(bo.Y)) {
+					continue
+				}
+				x := bo.X
+				if isNilConst(bo.X) {
+					x = bo.Y
+				}
+				ld := loadOf(x)
+				isFirst := false
+				if ld != nil && isUnsafePointer(ld.T) && ld.Ptr == ssa.Value(pparam) {
+					isFirst = true // *(*unsafe.Pointer)(p)
+				}
+				if _, typ, f, ok := fieldOf(x); ok && typ == "sliceHeader" && f == "Data" {
+					isFirst = true // (*sliceHeader)(p).Data
+				}
+				if !isFirst {
+					continue
+				}
+				isNil := bo.Op == token.EQL && cd.Truth || bo.Op == token.NEQ && !cd.Truth
+				if isNil == wantNil {
+					return true
+				}
+			}
+			return false
+		}
+		isLen := func(v ssa.Value) bool {
+			cv, ok := v.(*ssa.Convert)
+			return ok && strings.HasSuffix(path(cv.X), ".Len") && namedOf(fieldRecvType(cv.X)) == "sliceHeader"
+		}
+		n, sawLive := 0, false
 		for _, e := range ei.events {
 			if e.Kind != "bytes" || e.N != 5 {
 				continue
@@ -578,40 +612,59 @@ func ruleT9(c *Ctx) []Ob {
 			n++
 			tb, isConv := typeByteSrc(e.Srcs[0])
 			good := isConv && path(tb) == fn.Params[0].Name()+".WT"
-			nilEdge := false
-			for _, cd := range domConds(e.Instr.Block()) {
-				if bo, ok := cd.V.(*ssa.BinOp); ok && bo.Op == token.EQL && cd.Truth && (isNilConst(bo.X) || isNilConst(bo.Y)) {
-					nilEdge = true
+			why := "type byte is not t.WT"
+			allZero := true
+			for _, sv := range e.Srcs[1:] {
+				if z, ok := constInt(sv); !ok || z != 0 {
+					allZero = false
 				}
 			}
-			what := ""
-			if nilEdge {
-				for _, sv := range e.Srcs[1:] {
-					if z, ok := constInt(sv); !ok || z != 0 {
-						good = false
-					}
+			if allZero {
+				if !firstWordNil(e.Instr.Block(), true) {
+					good, why = false, "a zero count is written where the slice is not known to be nil"
 				}
-				what = "nil slice: [t.WT, 0, 0, 0, 0]"
 			} else {
 				var base ssa.Value
 				for i, sv := range e.Srcs[1:] {
 					x, kk, ok := shiftOf(sv)
 					if !ok || kk != int64(8*(3-i)) || (base != nil && x != base) {
-						good = false
+						good, why = false, "count bytes are not n>>24, n>>16, n>>8, n of one value"
 						break
 					}
 					base = x
 				}
 				if good {
-					cv, ok := base.(*ssa.Convert)
-					good = ok && strings.HasSuffix(path(cv.X), ".Len") && namedOf(fieldRecvType(cv.X)) == "sliceHeader"
+					switch b0 := base.(type) {
+					case *ssa.Phi:
+						for k, ed := range b0.Edges {
+							pred := b0.Block().Preds[k]
+							if z, ok := constInt(ed); ok && z == 0 {
+								// zero only on the nil path
+								if !firstWordNil(pred, true) && !predOnNilEdge(pred, b0.Block(), firstWordNil) {
+									good, why = false, "count 0 reaches the header on a path where the slice is not nil"
+								}
+							} else if isLen(ed) {
+								sawLive = true
+								if in, ok := ed.(ssa.Instruction); ok && !firstWordNil(in.Block(), false) {
+									good, why = false, "length is read without testing the slice for nil"
+								}
+							} else {
+								good, why = false, "count is neither 0 nor uint32(len)"
+							}
+						}
+					default:
+						if isLen(base) {
+							sawLive = true
+						} else {
+							good, why = false, "count is not uint32(len) of the slice"
+						}
+					}
 				}
-				what = "[t.WT, n>>24, n>>16, n>>8, n], n = uint32(len)"
 			}
-			s.check(good, "appendListHeader:"+map[bool]string{true: "nil", false: "live"}[nilEdge], c.InstrPos(e.Instr), what, "list header bytes are not "+what)
+			s.check(good, "appendListHeader:header", c.InstrPos(e.Instr), "[t.WT, count big-endian]; count = 0 for nil, uint32(len) otherwise", "list header: "+why)
 		}
-		if n != 2 {
-			s.bad("appendListHeader", c.Pos(fn.Pos()), fmt.Sprintf("expected 2 five-byte header emissions (nil and live), found %d", n))
+		if n == 0 || !sawLive {
+			s.bad("appendListHeader", c.Pos(fn.Pos()), "no five-byte list header carrying the live length")
 		}
 	} else {
 		s.bad("appendListHeader", "-", "not found")
@@ -832,4 +885,36 @@ func ruleEqualLens(c *Ctx) []Ob {
 	}
 	s.check(okFalse, "default", c.Pos(fn.Pos()), "other kinds compare unequal (field is written)", "no `return false` for other kinds")
 	return s.obs
+}
+
+// predOnNilEdge: the edge pred->blk is itself the nil edge of a first-word test at the end of pred.
+func predOnNilEdge(pred, blk *ssa.BasicBlock, firstWordNil func(*ssa.BasicBlock, bool) bool) bool {
+	iff, ok := pred.Instrs[len(pred.Instrs)-1].(*ssa.If)
+	if !ok {
+		return false
+	}
+	bo, ok := iff.Cond.(*ssa.BinOp)
+	if !ok || !(isNilConst(bo.X) || isNilConst(bo.Y)) {
+		return false
+	}
+	// which successor index is blk
+	for k, sc := range pred.Succs {
+		if sc != blk {
+			continue
+		}
+		isNil := bo.Op == token.EQL && k == 0 || bo.Op == token.NEQ && k == 1
+		if isNil {
+			x := bo.X
+			if isNilConst(bo.X) {
+				x = bo.Y
+			}
+			if ld := loadOf(x); ld != nil && isUnsafePointer(ld.T) {
+				return true
+			}
+			if _, typ, f, ok := fieldOf(x); ok && typ == "sliceHeader" && f == "Data" {
+				return true
+			}
+		}
+	}
+	return false
 }
